@@ -16,7 +16,17 @@ def run_one(pid, tier, repo, seed, replay=None):
             raise
         chk = Check(pid, tier=tier, repo=repo, seed=seed, level=getattr(mod, 'LEVEL', 'other'))
         chk.explanation = getattr(mod, 'EXPLANATION', '')
-        mod.run(chk)
+        try:
+            mod.run(chk)
+        except AnalysisError as ex:
+            # the analysis could not be completed -- but obligations that already failed (and are not listed findings) are violations whatever comes after them:
+            # they are reported (exit 1); only a run without any unlisted failure is "analysis broken" (exit 2)
+            from .core.report import load_known, norm_key
+            known = {norm_key(e_['key']) for e_ in load_known() if e_.get('property') == pid and e_.get('status') == 'known'}
+            if not any((not o.ok) and o.key not in known for o in chk.obls):
+                raise
+            print(f'NOTE: the analysis stopped early ({str(ex)[:160]}); the violations found before that point are reported')
+            chk.floors = {}
         rc = chk.finish()
         if tier == 'thorough' and not os.environ.get('VERIF_NO_SELFTEST'):
             selftest(pid, repo)
